@@ -20,6 +20,8 @@
 #include <sys/stat.h>
 #include <fcntl.h>
 #include <unistd.h>
+#include <pthread.h>
+#include <time.h>
 
 namespace vh {
 
@@ -127,6 +129,9 @@ struct State {
 
 inline State &st() { static State s; return s; }
 
+inline void prog_store(int i, uint64_t v) { if (st().progress) __atomic_store_n(const_cast<uint64_t *>(st().progress) + i, v, __ATOMIC_RELAXED); }
+inline uint64_t prog_load(volatile uint64_t *p, int i) { return __atomic_load_n(const_cast<uint64_t *>(p) + i, __ATOMIC_RELAXED); }
+
 inline void counter(const std::string &name, uint64_t inc = 1) { st().counters[name] += inc; }
 inline void counter_max(const std::string &name, uint64_t v) { auto &c = st().counters[name]; if (v > c) c = v; }
 
@@ -192,12 +197,12 @@ inline void begin_case(uint64_t idx) {
     State &s = st();
     s.cur_case = idx;
     s.case_desc.clear();
-    if (s.progress) { s.progress[0] = idx; }
+    prog_store(0, idx);
 }
 inline void end_case() {
     State &s = st();
     ++s.cases;
-    if (s.progress) { s.progress[1] = s.cases; }
+    prog_store(1, s.cases);
 }
 
 inline void finish() {
@@ -222,10 +227,49 @@ inline void finish() {
     fflush(stdout);
 }
 
+//! In-process watchdog: if one case does not finish within --watchdog seconds (default 300; 0 = off) the
+//! process prints a marker and exits with code 97. The runner then re-runs that single case alone in a
+//! fresh process before anything is reported (a wall-clock expiry alone proves nothing).
+struct WdArg { volatile uint64_t *progress; long limit; };
+inline void *watchdog_main(void *argp) {
+    WdArg *a = static_cast<WdArg *>(argp);      // never touches vh::State: no races with the harness
+    volatile uint64_t *pr = a->progress;
+    long limit = a->limit;
+    uint64_t last_done = prog_load(pr, 1), last_case = prog_load(pr, 0);
+    long idle = 0;
+    for (;;) {
+        struct timespec ts = {1, 0};
+        nanosleep(&ts, nullptr);
+        uint64_t d = prog_load(pr, 1), c = prog_load(pr, 0);
+        if (d != last_done || c != last_case) { last_done = d; last_case = c; idle = 0; continue; }
+        if (++idle >= limit) {
+            char buf[128];
+            int n = snprintf(buf, sizeof buf, "\nVH-WATCHDOG case=%llu idle=%lds\n", (unsigned long long)c, idle);
+            if (write(2, buf, n) < 0) {}
+            _exit(97);
+        }
+    }
+    return nullptr;
+}
+inline void start_watchdog() {
+    long limit = st().args.num("watchdog", 300);
+    if (limit <= 0 || !st().progress) return;
+    static WdArg arg;
+    arg.progress = st().progress; arg.limit = limit;
+    pthread_t t;
+    pthread_attr_t a;
+    pthread_attr_init(&a);
+    pthread_attr_setdetachstate(&a, PTHREAD_CREATE_DETACHED);
+    pthread_create(&t, &a, watchdog_main, &arg);
+    pthread_attr_destroy(&a);
+}
+
 //! standard driver: runs one_case(idx, rng) for idx in [first, first+count)
 inline int run(int argc, char **argv, const std::function<void(uint64_t, Rng &)> &one_case) {
     parse_args(argc, argv);
     Args &a = st().args;
+    prog_store(0, a.first); prog_store(1, 0);
+    start_watchdog();
     for (uint64_t i = a.first; i < a.first + a.count; ++i) {
         begin_case(i);
         Rng rng(mix(a.seed, i));
